@@ -79,6 +79,7 @@ def impl(c):
                 pass
     nd = NoteData.from_notes(as_stream([G.mk_note(o) for o in ns], c.get("via", "list"), cols), cols)
     text = str(nd)
+    next(iter(nd), None)                       # an abandoned partial pass first
     back = [G.note_obs(n) for n in nd]
     again = str(NoteData.from_notes(list(nd), nd.columns))
     return {"text": text, "back": back, "columns": nd.columns, "again_same": again == text}
